@@ -14,7 +14,7 @@ LEVEL_TEXT = ("Differential testing of all 418 generated decoders against an ind
               "edit of the 59k generated lines visible in the quick tier.")
 TECHNIQUE = "property-based differential testing (Hypothesis) against a database reference model + systematic boundary-class sweep"
 RULE = ("all 418 definitions: systematic sweep of every (field, raw-class) pair with the other fields benign, plus per-definition "
-        "Hypothesis draws combining classes over all fields (any-class and accepted-only modes), decoded through "
+        "Hypothesis draws combining classes over all fields (any-class and accepted-only modes), numeric literals harvested from the library sources as raws/values, every one-bit neighbour of every match value, decoded through "
         "decode_basic_string(already_combined=True) and, for single-frame definitions of <= 8 bytes, decode_tcp; compared field by "
         "field with the database reference model. non-trivial = some field in a boundary class (range ends, just in/out, sentinel, "
         "sign boundary, table miss, special floats, non-ASCII/empty/max strings); distinct = (definition, payload)")
